@@ -224,6 +224,7 @@ fn build_program(e: &mut Ent) -> (Prog, u32, usize) {
     let mut vec_used = 0u32;
     let mut max_depth = 0usize;
     let mut depth_of = vec![1usize; nf];
+    let mut cost = vec![8usize; nf]; // executed instructions including callees
     let mut funcs = vec![];
     for i in (0..nf).rev() {
         let mut body: Vec<u8> = vec![];
@@ -243,6 +244,10 @@ fn build_program(e: &mut Ent) -> (Prog, u32, usize) {
             // maybe a call to a later function
             if i + 1 < nf && e.chance(3, 4) {
                 let callee = i + 1 + e.below((nf - i - 1) as u32) as usize;
+                if cost[i] + cost[callee] + 8 > 300 {
+                    continue;
+                }
+                cost[i] += cost[callee] + 8;
                 depth_of[i] = depth_of[i].max(1 + depth_of[callee]);
                 let here = addrs[i] + body.len() as u32;
                 let tgt = addrs[callee];
@@ -414,6 +419,7 @@ pub fn run(ctx: &Ctx) -> i32 {
         random_cases: tier.pick(600_000, 30_000_000),
         build_random: &|e| build(e, &Force::default()),
         classify: &|c, j, t: &Tag, s| classify(c, j, t, s),
+        all_quirks: false,
     }
     .run();
     stats.exhaustive_subspaces.insert("Bcc d:8: 16 conditions x 256 CCR x 128 even displacements".into(), 16 * 256 * 128);
@@ -424,7 +430,7 @@ pub fn run(ctx: &Ctx) -> i32 {
     let nshards = 32usize;
     let pstats = par_shards(ctx, nshards, |shard| {
         let w = Worker::new(ctx);
-        let ent = entropy();
+        let ent = entropy_n(640);
         let fail = run_prop(mix(ctx.seed, 0x0502_0000 + shard as u64), nprog / nshards as u32, &ent, |raw, shrinking| {
             let (prog, stop, _) = build_program(&mut Ent::new(raw));
             let r = run_program(&mut w.emu.borrow_mut(), &prog, stop);
